@@ -1268,6 +1268,18 @@ fn build_encoder(cfg: &Cfg, sink: SharedSink, mis: &mut Vec<(String, String)>) -
     Ok(enc)
 }
 
+/// the model's name of a format error from the Debug form of the error (variant names; a reworded message does not change it)
+fn debug_name(dbg: &str) -> Option<&'static str> {
+    for (v, n) in [("ZeroWidth", "zeroWidth"), ("ZeroHeight", "zeroHeight"), ("ZeroFrames", "zeroFrames"), ("InvalidColorCombination", "invalidColor"), ("NoPalette", "noPalette"),
+        ("WrittenTooMuch", "writtenTooMuch"), ("NotAnimated", "notAnimated"), ("OutOfBounds", "outOfBounds"), ("EndReached", "endReached"), ("MissingFrames", "missingFrames"),
+        ("MissingData", "missingData"), ("Unrecoverable", "unrecoverable"), ("BadTextEncoding", "badText")] {
+        if dbg.contains(&format!("inner: {}", v)) {
+            return Some(n);
+        }
+    }
+    None
+}
+
 fn format_name(msg: &str) -> Option<&'static str> {
     Some(if msg == "Zero width not allowed" {
         "zeroWidth"
@@ -1319,7 +1331,7 @@ pub fn enc_res<T>(r: &Result<T, png::EncodingError>) -> String {
     match r {
         Ok(_) => "ok".into(),
         Err(png::EncodingError::IoError(e)) => io_res(e),
-        Err(png::EncodingError::Format(f)) => match format_name(&f.to_string()) {
+        Err(png::EncodingError::Format(f)) => match debug_name(&format!("{:?}", f)).or_else(|| format_name(&f.to_string())) {
             Some(n) => format!("err:{}", n),
             // a message the harness does not know (reworded): still a format error
             None => "err:format".to_string(),
